@@ -177,6 +177,14 @@ def discharge(obligations, timeout_s=10, jobs=None, both=False):
                 ob.result, ob.backend, ob.model = kind, p.backend, p.model
                 ob.note += p.note + f" [failing conjunct: {str(p.goal)[:200]}]"
                 ob.failed_goal = p.goal
+                dbg = os.environ.get("PYVC_DUMP_FAILED")
+                if dbg:  # developer aid: full text of every conjunct that did not discharge
+                    os.makedirs(dbg, exist_ok=True)
+                    with open(os.path.join(dbg, f"{ob.oid.replace('/', '_').replace(':', '_')}.txt"), "w") as fh:
+                        for q in bad:
+                            fh.write(f"--- {q.result}\n{q.goal}\n")
+                    with open(os.path.join(dbg, f"{ob.oid.replace('/', '_').replace(':', '_')}.smt2"), "w") as fh:
+                        fh.write(p.smt2)
                 break
 
 
